@@ -19,7 +19,8 @@ CONSTANTS Geoms,        \* sequence of lattice geometries to draw from
           MaxN, MaxM,   \* list lengths
           MaxTotal,     \* n + m <= MaxTotal
           ZeroPairs,    \* "pair" | "split"
-          ExportAt      \* "matrix" | "solve"
+          ExportAt,     \* "matrix" | "solve"
+          WithTwins     \* BOOLEAN: also enumerate the lists of TwinInputs (cases only: the model has no closed form for them)
 VARIABLES c, pc, W, asg, rows, cols, out
 
 vars == <<c, pc, W, asg, rows, cols, out>>
@@ -35,9 +36,23 @@ Intervals3 == IntervalGeoms(3)
 Boxes == << G("BoundingBox", <<0, 0, 2, 2>>), G("BoundingBox", <<1, 1, 3, 3>>), G("BoundingBox", <<1, 0, 2, 1>>),
             G("BoundingBox", <<2, 0, 4, 2>>), G("BoundingBox", <<0, 2, 4, 3>>), G("BoundingBox", <<3, 1, 4, 3>>),
             G("BoundingBox", <<0, 0, 4, 3>>) >>
-Mixed == << G("TimeInterval", <<0, 2>>), G("TimeInterval", <<1, 4>>), G("TimeInterval", <<3, 4>>),
+\* intervals, boxes, and a region with an interior ring: box (2,2,4,4) lies strictly inside the hole, box (1,1,3,3) inside
+\* it touching its border, the others across it
+Mixed == << G("TimeInterval", <<0, 2>>), G("TimeInterval", <<1, 4>>),
             G("BoundingBox", <<0, 0, 2, 2>>), G("BoundingBox", <<1, 1, 3, 3>>), G("BoundingBox", <<2, 0, 4, 2>>),
-            G("BoundingBox", <<0, 2, 1, 3>>) >>
+            G("MultiPolygon", <<<<<<<<0, 0>>, <<6, 0>>, <<6, 6>>, <<0, 6>>, <<0, 0>>>>, <<<<1, 1>>, <<5, 1>>, <<5, 5>>, <<1, 5>>, <<1, 1>>>>>>>>),
+            G("BoundingBox", <<2, 2, 4, 4>>) >>
+\* geometries of different kinds with literally equal coordinates (run at unit 1 s / 1 Hz, positive buffers)
+TwinGeoms == << G("TimeInterval", <<1, 2>>), G("Point", <<1, 2>>),
+                G("LineString", <<<<0, 1>>, <<2, 3>>, <<3, 1>>>>), G("MultiPoint", <<<<0, 1>>, <<2, 3>>, <<3, 1>>>>),
+                G("Polygon", <<<<<<0, 0>>, <<2, 3>>, <<4, 0>>>>>>), G("MultiLineString", <<<<<<0, 0>>, <<2, 3>>, <<4, 0>>>>>>),
+                G("BoundingBox", <<0, 0, 3, 3>>) >>
+TwinSeqs(k) == UNION {[1..l -> 1..Len(TwinGeoms)] : l \in 0..k}
+HasTwins(x) == \E a, b \in Range(x[1]) \cup Range(x[2]) :
+                  TwinGeoms[a].type # TwinGeoms[b].type /\ TwinGeoms[a].coordinates = TwinGeoms[b].coordinates
+TwinInputs == IF WithTwins THEN {x \in TwinSeqs(2) \X TwinSeqs(2) : Len(x[1]) + Len(x[2]) <= 3 /\ HasTwins(x)} ELSE {}
+\* where the objects come from: one code 0..3 per element, spread over the cases
+Prov(s, salt) == [k \in DOMAIN s |-> (s[k] + 2 * k + salt) % 4]
 
 \* zero-extent geometries (with zero buffers): a zero-length interval, a TimeStamp, a zero-duration box -- next to
 \* proper ones whose affinities are fractions
@@ -58,8 +73,9 @@ BestComplete == {P \in Complete : \A Q \in Complete : Val(W, Q) <= Val(W, P)}
 Rec(s, t, a) == [s |-> s, t |-> t, a |-> a]
 NextPair == CHOOSE p \in asg : \A q \in asg : p[1] <= q[1]         \* scipy returns the pairs sorted by row
 
-Init == /\ \E x \in Inputs : c = [src |-> x[1], tgt |-> x[2]]
-        /\ pc = "matrix" /\ W = <<>> /\ asg = {} /\ rows = {} /\ cols = {} /\ out = <<>>
+Init == /\ \/ \E x \in Inputs : c = [src |-> x[1], tgt |-> x[2]] /\ pc = "matrix"
+           \/ \E x \in TwinInputs : c = [src |-> x[1], tgt |-> x[2]] /\ pc = "twin"
+        /\ W = <<>> /\ asg = {} /\ rows = {} /\ cols = {} /\ out = <<>>
 Matrix == /\ pc = "matrix" /\ W' = ExactW(Src, Tgt) /\ rows' = 1..n /\ cols' = 1..m
           /\ pc' = "solve" /\ UNCHANGED <<c, asg, out>>
 Solve == /\ pc = "solve" /\ asg' \in BestComplete /\ pc' = "pairs" /\ UNCHANGED <<c, W, rows, cols, out>>
@@ -83,7 +99,11 @@ Next == Matrix \/ Solve \/ Pair \/ Skip \/ PairsDone \/ Row \/ RowsDone \/ Col \
 Spec == Init /\ [][Next]_vars /\ WF_vars(Next)
 
 \* exhaustive runs print every initial state; -simulate runs (ExportAt = "solve") only the behaviours actually sampled
-Export == pc = ExportAt => PrintT(<<"CASE", ToJson([kind |-> "lat", src |-> Src, tgt |-> Tgt])>>)
+Export == /\ pc = ExportAt => PrintT(<<"CASE", ToJson([kind |-> "lat", src |-> Src, tgt |-> Tgt,
+                                                         sp |-> Prov(c.src, Len(c.tgt)), tp |-> Prov(c.tgt, 1 + Len(c.src))])>>)
+          /\ pc = "twin" => PrintT(<<"CASE", ToJson([kind |-> "twin", src |-> [k \in DOMAIN c.src |-> TwinGeoms[c.src[k]]],
+                                                     tgt |-> [k \in DOMAIN c.tgt |-> TwinGeoms[c.tgt[k]]],
+                                                     sp |-> Prov(c.src, Len(c.tgt)), tp |-> Prov(c.tgt, 1 + Len(c.src))])>>)
 
 (* ---- Impl => Req ---- *)
 Done == pc = "done"
@@ -100,5 +120,5 @@ LawSelfIsOne == pc = "solve" => \A i \in 1..n, j \in 1..m : (Src[i] = Tgt[j]) =>
 \* a zero-extent geometry has affinity 0 with everything (ratio 0/u, or 0/0 guarded): it always ends up unpaired
 LawZeroExtentUnpaired == Done => \A k \in DOMAIN out : IsPair(out[k]) =>
     LET a == Src[Some(out[k].s)]  b == Tgt[Some(out[k].t)] IN TimeExtent(a, Aff!FMAXT)[1] < TimeExtent(a, Aff!FMAXT)[2] /\ TimeExtent(b, Aff!FMAXT)[1] < TimeExtent(b, Aff!FMAXT)[2]
-Terminates == <>Done
+Terminates == <>(Done \/ pc = "twin")
 =============================================================================
